@@ -81,7 +81,7 @@ inductive Frame where
   | part (p : PartSt)
   | mapping (dim count : Nat) (acc : List Nat)
   | attr (name : Str) (dim count : Nat) (acc : List (List Rat))
-  | partition (name : Str) (prio level : Int) (nr ne : Nat) (patches : List (List Nat))
+  | partition (name : Str) (prio level : Int) (nr ne : Nat) (patches : List (List Nat)) (have_ : List Bool)
   | patch (rank size ne read : Nat) (elems : List Nat)
   deriving Repr
 
@@ -113,6 +113,11 @@ def setInsert (x : Nat) : List Nat → List Nat
   | [] => [x]
   | y :: ys => if x < y then x :: y :: ys else if x == y then y :: ys else y :: setInsert x ys
 
+/-- a declared entity count of zero directly below a non-zero one (`MeshParser::create`, `MeshPartParser::create`) -/
+def zeroBelow : List Nat → Bool
+  | a :: b :: rest => (a == 0 && b > 0) || zeroBelow (b :: rest)
+  | _ => false
+
 /-- `MeshParser::create` after the closed-markup check -/
 def meshCreate (st : St) (line : Nat) (m : Markup) : Except Err Frame :=
   match attrOf m "type", attrOf m "size" with
@@ -134,7 +139,9 @@ def meshCreate (st : St) (line : Nat) (m : Markup) : Except Err Frame :=
                 if toks.length != st.dim + 1 then cErr line
                 else match mapMOpt readIndex toks with
                   | none => cErr line
-                  | some sizes => .ok (Frame.mesh sizes none (List.replicate st.dim none))
+                  | some sizes =>
+                    if zeroBelow sizes then cErr line
+                    else .ok (Frame.mesh sizes none (List.replicate st.dim none))
     | _ => cErr line
   | _, _ => gErr line
 
@@ -179,9 +186,11 @@ def partCreate (st : St) (line : Nat) (m : Markup) : Except Err (PartSt × List 
               | none => cErr line
               | some given =>
                 let sizes := given ++ List.replicate (st.dim + 1 - given.length) 0
-                .ok ({ name := name, chart := chart, topoType := tt, sizes := sizes,
-                       maps := List.replicate (st.dim + 1) none, topo := List.replicate st.dim none, attrs := [] },
-                     links, deduct)
+                if tt == .full && zeroBelow sizes then cErr line
+                else
+                  .ok ({ name := name, chart := chart, topoType := tt, sizes := sizes,
+                         maps := List.replicate (st.dim + 1) none, topo := List.replicate st.dim none, attrs := [] },
+                       links, deduct)
     | _, _, _, _ => gErr line
 
 def partitionCreate (line : Nat) (m : Markup) : Except Err Frame :=
@@ -192,6 +201,7 @@ def partitionCreate (line : Nat) (m : Markup) : Except Err Frame :=
     | [a, b] =>
       match readInt a, readInt b with
       | some nr, some ne =>
+        if nr < 0 || ne < 0 then cErr line else
         let name := (attrOf m "name").getD []
         let prio : Except Err Int := match attrOf m "priority" with
           | none => .ok 0
@@ -209,9 +219,7 @@ def partitionCreate (line : Nat) (m : Markup) : Except Err Frame :=
           match level with
           | .error e => .error e
           | .ok level =>
-            -- negative counts wrap to huge `Index` values in the real code (defect class 1); the model keeps
-            -- the natural-number part and such inputs are not compared
-            .ok (Frame.partition name prio level nr.toNat ne.toNat (List.replicate nr.toNat []))
+            .ok (Frame.partition name prio level nr.toNat ne.toNat (List.replicate nr.toNat []) (List.replicate nr.toNat false))
       | _, _ => cErr line
     | _ => cErr line
 
@@ -269,14 +277,17 @@ def closeTop (st : St) (line : Nat) : Except Err St :=
         topo := p.topo.map (fun o => o.getD []),
         attrs := p.attrs }
       .ok { st with stack := rest, node := { st.node with parts := mapInsert strLt p.name part st.node.parts } }
-  | Frame.patch rank size _ read elems :: Frame.partition name prio level nr ne patches :: rest =>
+  | Frame.patch rank size _ read elems :: Frame.partition name prio level nr ne patches have_ :: rest =>
     if read < size then gErr line
     else
       let cur := patches.getD rank []
       let merged := elems.foldl (fun acc e => setInsert e acc) cur
-      .ok { st with stack := Frame.partition name prio level nr ne (patches.set rank merged) :: rest }
-  | Frame.partition name prio level nr ne patches :: rest =>
-    .ok { st with stack := rest, node := { st.node with partitions := st.node.partitions ++
+      .ok { st with stack := Frame.partition name prio level nr ne (patches.set rank merged) (have_.set rank true) :: rest }
+  | Frame.partition name prio level nr ne patches have_ :: rest =>
+    -- one patch per rank, and the declared total number of elements
+    if have_.any (fun b => !b) then gErr line
+    else if (patches.map List.length).sum != ne then gErr line
+    else .ok { st with stack := rest, node := { st.node with partitions := st.node.partitions ++
             [{ name := name, prio := prio, level := level, nr := nr, ne := ne, patches := patches }] } }
   | _ => gErr line
 
@@ -360,10 +371,10 @@ def openM (st : St) (line : Nat) (m : Markup) : Except Err St :=
         else match attrOf m "dim", attrOf m "name" with
           | some ds, some name => match readIndex ds with
             | none => cErr line
-            | some d => if d == 0 then cErr line else push st (Frame.attr name d (p.sizes.getD 0 0) [])
+            | some d => if d == 0 || d > 2 ^ 31 - 1 then cErr line else push st (Frame.attr name d (p.sizes.getD 0 0) [])
           | _, _ => gErr line
     else gErr line
-  | Frame.partition _ _ _ nr ne _ :: _ =>
+  | Frame.partition _ _ _ nr ne _ have_ :: _ =>
     if nm == "Patch" then
       match checkAttribs line (specOf "Patch") m.attrs with
       | .error e => .error e
@@ -373,7 +384,10 @@ def openM (st : St) (line : Nat) (m : Markup) : Except Err St :=
           | none => cErr line
           | some rank => match readIndex ss with
             | none => cErr line
-            | some size => if rank ≥ nr then cErr line else push st (Frame.patch rank size ne 0 [])
+            | some size =>
+              if rank ≥ nr then cErr line
+              else if have_.getD rank false then cErr line      -- "Multiple patches for rank"
+              else push st (Frame.patch rank size ne 0 [])
         | _, _ => gErr line
     else gErr line
   | _ => gErr line   -- Vertices / Topology / Mapping / Attribute / Patch have no children
@@ -462,6 +476,13 @@ def rootType (line : Nat) (m : Markup) : Except Err (Option (Shape × Int × Int
 def supported (sh : Shape) (sd wd : Int) : Bool :=
   sd == wd && ((sh == .hyper && (sd == 1 || sd == 2 || sd == 3)) || (sh == .simplex && (sd == 2 || sd == 3)))
 
+/-- `MeshNodeLinker::execute`: some mapping index of some mesh part is not an entity index of the root mesh
+    (no root mesh: nothing can be checked) -/
+def mapOutOfRange (n : Node) : Bool :=
+  match n.mesh with
+  | none => false
+  | some m => n.parts.any (fun np => np.2.maps.zipIdx.any (fun (idx, d) => idx.any (fun i => i ≥ m.sizes.getD d 0)))
+
 /-- `MeshFileReader::parse<RootMesh_>` for a fixed mesh type, from the root markup on, then `linker.execute()` -/
 def parseBody (sh : Shape) (dim : Nat) (m : Markup) (iline : Nat) (rest : List Str) : Outcome :=
   match checkAttribs iline (specOf "root") m.attrs with
@@ -475,6 +496,7 @@ def parseBody (sh : Shape) (dim : Nat) (m : Markup) (iline : Nat) (rest : List S
     | .ok st =>
       if st.unmodelled then .unmodelled
       else if !st.links.isEmpty then .err ⟨.linker, 0⟩
+      else if mapOutOfRange st.node then .err ⟨.linker, 0⟩
       else if !st.deduct.isEmpty then (if st.node.mesh.isNone then .err ⟨.linker, 0⟩ else .unmodelled)
       else .ok sh dim st.node
 
